@@ -103,7 +103,7 @@ def run_case(case):
     obs = {k: 0 for k in REQUIRED_OBS}
     unit_keys, nontrivial = [], []
     cover = {"forms": {}, "outcomes": {}}
-    files = {"modules/mymod.py": "VALUE = 41\ndef f():\n    return VALUE + 1\n", "modules/stubstore.py": "def f():\n    return 77\n", "modules/json.py": "SHADOW = 'pyscript json module'\n", "modules/pkg/__init__.py": "from .sub import SUBV\nTOP = 1\n", "modules/pkg/sub.py": "SUBV = 7\n", "apps/myapp/__init__.py": "from . import helper\nX = helper.H\n", "apps/myapp/helper.py": "H = 5\n"}
+    files = {"modules/mymod.py": "VALUE = 41\ndef f():\n    return VALUE + 1\n", "modules/stubstore.py": "def f():\n    return 77\n", "modules/pkg/rel1.py": "try:\n    from .subprocess import check_output\n    R = 'imported'\nexcept ImportError as exc:\n    R = type(exc).__name__\n", "modules/pkg/rel3.py": "try:\n    exec('from .shutil import rmtree as rm')\n    R = 'imported'\nexcept ImportError as exc:\n    R = type(exc).__name__\n", "modules/pkg/deep/__init__.py": "from . import rel2\n", "modules/pkg/deep/rel2.py": "try:\n    from ..socket import *\n    R = 'imported'\nexcept ImportError as exc:\n    R = type(exc).__name__\n", "modules/json.py": "SHADOW = 'pyscript json module'\n", "modules/pkg/__init__.py": "from .sub import SUBV\nfrom . import rel1, rel3\nfrom .deep import rel2\nTOP = 1\n", "modules/pkg/sub.py": "SUBV = 7\n", "apps/myapp/__init__.py": "from . import helper\nX = helper.H\n", "apps/myapp/helper.py": "H = 5\n"}
     config = {"allow_all_imports": bool(case.get("allow_all", False)), "apps": {"myapp": {}}}
     if part in ("allow_all",):
         config["allow_all_imports"] = True
@@ -228,6 +228,14 @@ def run_case(case):
             obs["statements_checked"] += 1
             if ps["exc"] is not None or ps["globals"].get("r") != 77:
                 viol.append({"mech": "pyscript_module_import_failed", "msg": f"`from stubstore import f` (a pyscript module whose name begins with 'stubs'): exc={ps['exc']} r={ps['globals'].get('r')}", "replay_case": dict(case)})
+            # relative from-imports inside a package: a name that is not a sibling must not fall through to an installed module
+            for src, want in (("import pkg\nr = pkg.rel1.R", "ModuleNotFoundError"), ("import pkg\nr = pkg.rel2.R", "ModuleNotFoundError"), ("import pkg\nr = pkg.rel3.R", "ModuleNotFoundError")):
+                ps = await interp.run_pyscript(src)
+                obs["statements_checked"] += 1
+                obs["relative_import_checks"] = obs.get("relative_import_checks", 0) + 1
+                got = ps["globals"].get("r")
+                if not case["allow_all"] and (ps["exc"] is not None or got != want):
+                    viol.append({"mech": "disallowed_import_succeeded", "msg": f"relative from-import of a forbidden module inside a package: `{src}` gave exc={ps['exc']} result {got!r} (expected the import to fail with {want})", "replay_case": dict(case)})
             for src in ("import stubs", "import stubs.x", "from stubs.x import y as z"):
                 ps = await interp.run_pyscript(src)
                 obs["statements_checked"] += 1
@@ -261,6 +269,20 @@ def run_case(case):
                     nontrivial.append(src)
                     if ps["exc"] != "NameError":
                         viol.append({"mech": "excluded_builtin_reachable", "msg": f"`{src}` gave {ps['exc']} r={ps['globals'].get('r')}", "replay_case": dict(case)})
+            # the namespace of the builtins module must not leak into the script's globals (exec() of natively compiled
+            # lambdas / @pyscript_compile functions puts it there)
+            for src in (
+                "f = lambda x: x\nr = __builtins__",
+                "@pyscript_compile\ndef nat(x):\n    return x\nr = __builtins__['open']",
+                "def g():\n    h = lambda: 0\n    return __builtins__\nr = g()",
+                "f = lambda x: x\nr = globals().get('__builtins__')" if False else "f = lambda x: x\nr = eval('__builtins__')",
+            ):
+                ps = await interp.run_pyscript(src)
+                obs["builtins_checked"] += 1
+                unit_keys.append(src)
+                nontrivial.append(src)
+                if ps["exc"] != "NameError":
+                    viol.append({"mech": "builtins_namespace_leaked_into_script_globals", "msg": f"`{src}` gave {ps['exc']} r={str(ps['globals'].get('r'))[:60]}", "replay_case": dict(case)})
             ps = await interp.run_pyscript("import builtins as B")
             if ps["exc"] != "ModuleNotFoundError":
                 viol.append({"mech": "disallowed_import_succeeded", "msg": "import builtins succeeded"})
